@@ -42,6 +42,11 @@ func (o *ObjectRangeRequest) Range(size int64) (*ObjectRange, error) {
 			// If no end is specified, range extends to end of the file.
 			length = size - start
 		} else {
+			// Clip the end to the object before computing the length so
+			// that huge values cannot overflow:
+			if end >= size {
+				end = size - 1
+			}
 			length = end - start + 1
 		}
 
